@@ -15,6 +15,18 @@ struct VxMM : MemoryManager {
   MemoryManager* getExceptionMemoryManager() { return this; }
 };
 
+// Fixed-block manager: every request is served by a block of exactly CAP bytes (requests larger than CAP fail the check).
+// Used where the code under test computes allocation sizes that become symbolic after path merging (heap objects of symbolic
+// size make the propositional encoding explode).  Consequence, stated in evidence: accesses are bounds-checked against CAP,
+// not against the requested size.
+template <unsigned CAP> struct VxMMFixed : MemoryManager {
+  unsigned long live;
+  VxMMFixed() : live(0) {}
+  void* allocate(XMLSize_t n) { VX_ASSERT(n <= CAP, "allocation request within the modelled block size"); VX_ASSUME(n <= CAP); void* p = malloc(CAP); VX_ASSUME(p != 0); live++; return p; }
+  void deallocate(void* p) { if (p) live--; free(p); }
+  MemoryManager* getExceptionMemoryManager() { return this; }
+};
+
 #ifdef VX_STUB_XMLEXCEPTION
 static int vx_last_exc_code = -1; static int vx_exc_count = 0;
 XMLException::XMLException(const char* const, const XMLFileLoc, MemoryManager* const m)
